@@ -148,7 +148,7 @@ func ruleV7(w *World, r *Report) {
 			if in.Block().Comment == "recover" {
 				return true
 			}
-			if isNilConst(env.Resolve(x.Results[len(x.Results)-1])) {
+			if !isNonNilErrorValue(env.Resolve(x.Results[len(x.Results)-1])) { // may be a success
 				n++
 				if !env.flags["val"] && !env.flags["callback"] && ok {
 					ok, badAt = false, in
@@ -445,8 +445,9 @@ func ruleB5(w *World, r *Report) {
 					}
 				}
 			}
-			if !env.flags["visited"] && why == "" {
-				why, badAt = "Len can answer with a number it did not count in this call (a remembered count): once the collection changed — version handles are recycled, so their identity proves nothing — the answer, and the block visits sized by it, are wrong", in
+			// what is refused is a number remembered in the collection / store object
+			if remembered(v, 0) && !env.flags["visited"] && why == "" {
+				why, badAt = "Len can answer with a number kept in a field of the collection (a remembered count) instead of counting in this call: once the collection changed — version handles are recycled, so their identity proves nothing — the answer, and the block visits sized by it, are wrong", in
 			}
 			return true
 		}
@@ -514,4 +515,34 @@ func ruleE1h(w *World, r *Report) {
 		}
 	}
 	r.Floor(rule, 4)
+}
+
+// remembered: v is (or merges) a value loaded from a field of the Collection / Store object.
+func remembered(v ssa.Value, d int) bool {
+	if d > 6 || v == nil {
+		return false
+	}
+	v = stripConv(v)
+	switch x := v.(type) {
+	case *ssa.UnOp:
+		if x.Op == token.MUL {
+			if _, isC := isFieldAddr(x.X, "Collection", ""); isC {
+				return true
+			}
+			if fa, ok := x.X.(*ssa.FieldAddr); ok {
+				if _, st, _, okF := fieldOf(fa); okF && st != nil && (st.Obj().Name() == "Collection" || st.Obj().Name() == "Store") {
+					return true
+				}
+			}
+		}
+	case *ssa.Phi:
+		for _, e := range x.Edges {
+			if remembered(e, d+1) {
+				return true
+			}
+		}
+	case *ssa.BinOp:
+		return remembered(x.X, d+1) || remembered(x.Y, d+1)
+	}
+	return false
 }
